@@ -30,7 +30,7 @@ KINDS = [
 SIZES = {
     "quick": {"tworun": 700, "explicit": 200, "odd": 40, "pinned": 160, "devflip": 12, "construct": 500, "wild": 300, "choose": 500, "vresult": 250,
               "match": 250},
-    "thorough": {"tworun": 14000, "explicit": 3500, "odd": 500, "pinned": 2500, "devflip": 60, "construct": 10000, "wild": 5000, "choose": 10000,
+    "thorough": {"tworun": 14000, "explicit": 3500, "odd": 500, "pinned": 2500, "devflip": 80, "construct": 10000, "wild": 5000, "choose": 10000,
                  "vresult": 3000, "match": 3000},
 }
 PER = 100
@@ -196,6 +196,12 @@ def run(ctx):
             spec_bad += [base + i for i in res["spec_bad"]]
             outside_rt += [base + i for i in (res["outside_rt"] or [])]
     ctx.log("corr_bad=%d spec_bad=%d" % (len(corr_bad), len(spec_bad)))
+    hung = [i for i, c in enumerate(cases) if c["kind"] == "tworun" and c["case"].get("hung")]
+    for i in hung[:3]:
+        ctx.violation({"kind": "no-result", "case": describe(cases[i]), "case_index": i,
+                       "explanation": "guidedremediation.FixVulns (or the analysis around it) did not return within 30 s on this "
+                                      "input: no report and no written manifest to compare - every other case of this run takes "
+                                      "a few milliseconds"})
     if corpus_corr and not corr_bad:
         w = corpus_corr[0]
         ctx.violation({"kind": "correspondence-broken", "correspondence": CORR, "theorems_no_longer_tied_to_code": THEOREMS,
@@ -232,6 +238,8 @@ def run(ctx):
                 bump(dist["options"], k)
         if not c["ok"]:
             errs += 1
+        if c.get("trace_retries"):
+            bump(dist.setdefault("trace_reexecuted_to_match_run1", {}), c["stream"])
         if len((c.get("a0") or {}).get("kept") or []) >= 1 and len(c.get("all_patches") or []) >= 1:
             seen.add(vlib.sha([u["sys"], u["schema"], u["manifest"], u["vulns"], o]))
     dist["two_run_cases_with_an_error_return"] = errs
